@@ -36,3 +36,64 @@ impl Base64 {
             r matches Ok(s) ==> str_bytes(s@) == b64_encode(bin.in_bytes()),
     { unimplemented!() }
 }
+
+// --- rule R10: diagnostic macros (format!, anyhow!, eprintln!, ...) become opaque calls that keep their arguments
+pub struct VArg;
+#[verifier::external_body]
+pub fn vlit(s: &str) -> (r: VArg) { VArg }
+#[verifier::external_body]
+pub fn varg<T>(t: &T) -> (r: VArg) { VArg }
+#[verifier::external_body]
+pub fn v_format(args: &[VArg]) -> (r: String) { unimplemented!() }
+#[verifier::external_body]
+pub fn v_eprintln(args: &[VArg]) { }
+#[verifier::external_body]
+pub fn v_eprint(args: &[VArg]) { }
+#[verifier::external_body]
+pub fn v_println(args: &[VArg]) { }
+
+// --- std::fs / std::io / std::path as the CLI's OnDemandFile uses them (assumed contracts, C13)
+/// Permission to create or truncate a file at the output path.  Uninterpreted: no function can establish it,
+/// so code WITHOUT it in its `requires` provably never reaches File::create.
+pub uninterp spec fn fs_create_permitted() -> bool;
+pub mod vio {
+    use vstd::prelude::*;
+    pub struct Error;
+    pub type Result<T> = core::result::Result<T, Error>;
+    pub struct Stdout;
+    #[verifier::external_body]
+    pub fn stdout() -> Stdout { Stdout }
+}
+pub trait VWrite {}
+impl VWrite for vio::Stdout {}
+#[verifier::external_body]
+pub struct PathBuf { p: std::path::PathBuf }
+#[verifier::external_body]
+pub struct File { f: std::fs::File }
+impl PathBuf {
+    #[verifier::external_body]
+    pub fn from(s: &str) -> PathBuf { unimplemented!() }
+}
+/// rule R19: `p.as_ref().to_path_buf()` for `p: impl AsRef<Path>`
+#[verifier::external_body]
+pub fn v_to_path_buf<T>(p: &T) -> PathBuf { unimplemented!() }
+impl File {
+    /// std::fs::File::create creates the file or TRUNCATES an existing one
+    #[verifier::external_body]
+    pub fn create(path: &PathBuf) -> (r: vio::Result<File>)
+        requires fs_create_permitted()
+    { unimplemented!() }
+    #[verifier::external_body]
+    pub fn write(&mut self, buf: &[u8]) -> (r: vio::Result<usize>) { unimplemented!() }
+    #[verifier::external_body]
+    pub fn flush(&mut self) -> (r: vio::Result<()>) { unimplemented!() }
+}
+pub enum Stream { Stdin, Stdout, Stderr }
+#[verifier::external_body]
+pub fn isatty(s: Stream) -> bool { unimplemented!() }
+pub struct AnyhowError;
+pub mod anyhow { pub use super::AnyhowError as Error; }
+#[verifier::external_body]
+pub fn v_anyhow(args: &[VArg]) -> (r: AnyhowError) { AnyhowError }
+#[verifier::external_body]
+pub fn v_cfg_windows() -> bool { cfg!(target_os = "windows") }
